@@ -35,17 +35,16 @@ Definition pres (P : nat -> Prop) (st : truf) : Prop :=
 Definition compl (Ec : list (nat * nat)) (st : truf) : Prop :=
   forall a b x y, dominant st a -> dominant st b -> mem_of st a x -> mem_of st b y -> rtc Ec x y -> a = b \/ cn st a b.
 
-Lemma tinv_split : forall E st,
-  tinv E st <-> cinv E st /\ pres (fun _ => False) st /\ compl E st /\ (forall x, mentioned E x -> aget x (t_ids st) <> None).
+Lemma tinv_split : forall {P : nat -> Prop} E st,
+  tinvP P E st <-> cinv E st /\ pres P st /\ compl E st /\ (forall x, mentioned E x -> aget x (t_ids st) <> None).
 Proof.
-  intros E st; split.
+  intros P E st; split.
   - intros H. split; [|split; [|split]].
     + destruct H. constructor; try assumption. intros x Hx; apply m_ids; assumption.
-    + intros d Hd; right; apply (w_present E st H); assumption.
+    + intros d Hd; apply (w_present E st H); assumption.
     + exact (m_complete E st H).
     + intros x Hx; apply (m_ids E st H); assumption.
   - intros [Hc [Hp [Hm Hi]]]. destruct Hc. constructor; try assumption.
-    + intros d Hd; destruct (Hp d Hd) as [[]|Hh]; exact Hh.
     + intros x; split; [apply c_ids_ment0|apply Hi].
 Qed.
 
@@ -65,11 +64,11 @@ Definition ann_ok_stmt : Prop := forall Es st x, cinv Es st -> mentioned Es x ->
                      (forall s z, mem_of st' s z <-> mem_of st s z \/ (s = id /\ z = x))).
 
 (* the collapse branch of add (proved in TrUfCollapse.v as collapse_spec) *)
-Definition collapse_ok_stmt : Prop := forall E st x y xs ys,
-  cinv (E ++ [(x, y)]) st -> pres (fun _ => False) st -> compl E st ->
+Definition collapse_ok_stmt (P : nat -> Prop) : Prop := forall E st x y xs ys,
+  cinv (E ++ [(x, y)]) st -> pres P st -> compl E st ->
   (forall z, mentioned (E ++ [(x, y)]) z -> aget z (t_ids st) <> None) ->
   dominant st xs -> dominant st ys -> xs <> ys -> mem_of st xs x -> mem_of st ys y -> cn st ys xs ->
-  exists st', collapse_branch st x y xs ys = Ok (st', true) /\ tinv (E ++ [(x, y)]) st'.
+  exists st', collapse_branch st x y xs ys = Ok (st', true) /\ tinvP P (E ++ [(x, y)]) st'.
 
 (* ---- the part of the invariant that only concerns sets / elem_ids / set_subsumptions *)
 Record sinv (st : truf) : Prop := mkSinv {
